@@ -29,6 +29,8 @@ enum Op {
     TruncateWal,
     /// a vote for transaction t arrives from a shard that is not one of its participants
     StrayVote(u8),
+    /// the cluster run loop's tick: queued timeout aborts are logged as intents and sent (async path)
+    ProcessAborts,
 }
 
 #[derive(Clone, Debug, PartialEq)]
@@ -50,6 +52,9 @@ enum St {
     /// the coordinator moved on without logging (timeout sweep, unlogged abort decision, completion
     /// after recovery): nothing is promised about this transaction
     NoPromise,
+    /// all votes were logged (Prepared), then the timeout sweep dropped the transaction in memory without
+    /// logging an outcome: it had all votes and no outcome, so a restart must still know it
+    PreparedTimedOut,
 }
 
 #[derive(Clone, Debug)]
@@ -61,6 +66,22 @@ type Model = Vec<Slot>;
 
 struct Live {
     c: DistributedTxCoordinator,
+}
+
+fn block_on_ready<F: std::future::Future>(f: F) {
+    use std::task::{Context, Poll, RawWaker, RawWakerVTable, Waker};
+    fn noop(_: *const ()) {}
+    fn clone(_: *const ()) -> RawWaker {
+        RawWaker::new(std::ptr::null(), &VTABLE)
+    }
+    static VTABLE: RawWakerVTable = RawWakerVTable::new(clone, noop, noop, noop);
+    let waker = unsafe { Waker::from_raw(RawWaker::new(std::ptr::null(), &VTABLE)) };
+    let mut cx = Context::from_waker(&waker);
+    let mut f = std::pin::pin!(f);
+    // MemoryTransport sends complete immediately; a pending future would mean the tick did not finish
+    if let Poll::Pending = f.as_mut().poll(&mut cx) {
+        panic!("process_pending_aborts did not complete immediately");
+    }
 }
 
 struct TxSubject {
@@ -126,7 +147,7 @@ impl Subject for TxSubject {
         match op {
             Op::Begin(t) => {
                 let s = &mut m[*t as usize];
-                if matches!(s.st, St::None | St::Committed | St::Aborted | St::NoPromise) {
+                if matches!(s.st, St::None | St::Committed | St::Aborted | St::NoPromise | St::PreparedTimedOut) {
                     if let Ok(tx) = c.begin(&"coord".to_string(), &SHARDS) {
                         *s = Slot { id: Some(tx.tx_id), st: St::Preparing { yes: BTreeSet::new(), no: BTreeSet::new() } };
                     }
@@ -179,10 +200,9 @@ impl Subject for TxSubject {
             Op::Timeouts => {
                 env::clock_advance_ms(3_600_000);
                 let timed = c.cleanup_timeouts();
-                let _ = c.take_pending_aborts();
                 for s in m.iter_mut() {
                     if s.id.is_some_and(|id| timed.contains(&id)) && !matches!(s.st, St::Committed | St::Aborted) {
-                        s.st = St::NoPromise;
+                        s.st = if s.st == St::Prepared { St::PreparedTimedOut } else { St::NoPromise };
                     }
                 }
             }
@@ -196,6 +216,10 @@ impl Subject for TxSubject {
                     // refused live (not a participant / wrong phase); it must not come back on replay either
                     let _ = c.record_vote(id, 7, PrepareVote::No { reason: "stray".into() });
                 }
+            }
+            Op::ProcessAborts => {
+                let transport = tensor_chain::network::MemoryTransport::new("coord".to_string());
+                block_on_ready(c.process_pending_aborts(&transport));
             }
             Op::RecoverAndComplete => {
                 let _ = c.recover();
@@ -280,6 +304,11 @@ impl Subject for TxSubject {
                         return fail("aborting-tx-committable", format!("coordinator holds {phase:?}"));
                     }
                 }
+                St::PreparedTimedOut => {
+                    if phase.is_none() && !matches!(p.st, St::None | St::Preparing { .. }) {
+                        return fail("fully-voted-tx-without-outcome-forgotten", "all votes were logged and no outcome was: the coordinator must still know the transaction after a restart".to_string());
+                    }
+                }
                 St::None | St::NoPromise => {}
             }
             if matches!(a.st, St::Committed | St::Aborted | St::Preparing { .. }) && matches!(p.st, St::Committed | St::Aborted | St::Preparing { .. }) && c.lock_manager().lock_count_for_transaction(id) != 0 {
@@ -349,7 +378,7 @@ fn alphabet(level: u8) -> Vec<Op> {
         // minimal: one transaction driven forward
         0 => vec![Op::Begin(0), Op::Yes(0, 0), Op::Yes(0, 1), Op::Commit(0)],
         // one transaction, all outcomes, plus recovery-side calls
-        1 => vec![Op::Begin(0), Op::Yes(0, 0), Op::Yes(0, 1), Op::No(0, 0), Op::No(0, 1), Op::Commit(0), Op::Abort(0), Op::Timeouts, Op::RecoverAndComplete, Op::StrayVote(0), Op::TruncateWal],
+        1 => vec![Op::Begin(0), Op::Yes(0, 0), Op::Yes(0, 1), Op::No(0, 0), Op::No(0, 1), Op::Commit(0), Op::Abort(0), Op::Timeouts, Op::RecoverAndComplete, Op::StrayVote(0), Op::TruncateWal, Op::ProcessAborts],
         // two transactions
         2 => vec![Op::Begin(0), Op::Yes(0, 0), Op::Yes(0, 1), Op::Commit(0), Op::Abort(0), Op::Begin(1), Op::Yes(1, 0), Op::Yes(1, 1), Op::Commit(1), Op::Timeouts],
         // continuation: recovery calls and a new transaction
@@ -440,7 +469,7 @@ fn main() {
     }
     let mut rep = Report::new("C13", "fault_enumeration");
     let thorough = rep.thorough();
-    rep.rule("histories: 7 scripted prefixes (reachable by construction, two of them with a log checkpoint at a quiescent moment) extended by every sequence (quick <=2, thorough <=3) of {begin, yes-vote(via handle_prepare), no-vote, commit, abort, timeout sweep (clock +1h), recover()+complete, a vote from a non-participant shard, truncate_wal() when no transaction is in flight} over 1-2 transactions x 2 shards, disjoint and overlapping keys; crash images: every I/O-op boundary and every byte cut of every TxWal write; after every image: recover_from_wal, then commit/abort/complete/recover()/second recover() after the timeout/cleanup_timeouts probes; epochs 2-3 continue with recovery calls and new transactions. non-trivial = torn image");
+    rep.rule("histories: 7 scripted prefixes (reachable by construction, two of them with a log checkpoint at a quiescent moment) extended by every sequence (quick <=2, thorough <=3) of {begin, yes-vote(via handle_prepare), no-vote, commit, abort, timeout sweep (clock +1h), recover()+complete, a vote from a non-participant shard, truncate_wal() when no transaction is in flight, the async abort tick process_pending_aborts} over 1-2 transactions x 2 shards, disjoint and overlapping keys; crash images: every I/O-op boundary and every byte cut of every TxWal write; after every image: recover_from_wal, then commit/abort/complete/recover()/second recover() after the timeout/cleanup_timeouts probes; epochs 2-3 continue with recovery calls and new transactions. non-trivial = torn image");
     rep.assume("crash model: prefix persistence; TxWal fsyncs every record so acknowledged = call returned; frozen virtual clock (timeouts fire only when the harness advances it)");
     rep.assume("promises: commit()/abort() returning Ok (TxComplete logged), record_vote returning Prepared (logged); timeout sweeps, in-memory abort decisions and complete_* are not logged and promise nothing");
     let results: Vec<Stats> = par::spawn_workers(par::worker_count(), &[]);
